@@ -368,7 +368,9 @@ fn parse_token(text: &str) -> IResult<&str, Token> {
 
 fn parse_token_not_semicolon(text: &str) -> IResult<&str, Token> {
     let (rest, token) = parse_token(text)?;
-    if token == Token::Semicolon {
+    // A declaration value ends at a semicolon or at the block's closing brace
+    // (the final semicolon of a block is optional).
+    if token == Token::Semicolon || token == Token::CloseBrace {
         fail(text)
     } else {
         Ok((rest, token))
